@@ -100,14 +100,20 @@ theorem sz_pos : 0 < sz := by
 
 end
 
-/-- the page range tested by the purge loop, `[page+hdr, page+hdr+PAGE_SIZE)` as written, selects
-exactly the chunks of that page among chunk addresses (offset at least the header size, below the
-page size): the 32 bytes it reaches into the next page hold that page's header, never a chunk -/
-theorem inPageRange_iff (p : Nat) (a : Addr) (h1 : hdrSize ≤ a.off) (h2 : a.off < pageSize) :
-    (p * pageSize + hdrSize ≤ a.lin ∧ a.lin < p * pageSize + hdrSize + pageSize) ↔ a.page = p := by
-  simp only [Addr.lin, hdrSize_eq, pageSize_eq] at *
-  constructor
-  · intro h; omega
-  · intro h; subst h; omega
+/-- The range test of the purge loop — bounds and comparisons as GENERATED from the source text —
+selects, among chunk addresses of the bin's slot grid, exactly the chunks of the drained page.  (As
+written the upper bound reaches `sizeof(struct page_header)` bytes into the next page; those bytes
+hold that page's header, never a chunk.  The chunk at the very end of a page — offset
+`pageSize - sz`, which exists in the 32-byte class — must be accepted.) -/
+theorem purgeHit_iff (p : Nat) (a : Addr) {sz : Nat} (hsz : sz ∈ binSizes) (hs : SlotOff sz a.off) :
+    purgeHit a.lin (purgeStart (p * pageSize) sz) (purgeEnd (p * pageSize) sz) ↔ a.page = p := by
+  simp only [purgeHit, purgeStart, purgeEnd, Addr.lin, SlotOff, hdrSize_eq, pageSize_eq] at *
+  rcases mem_binSizes.mp hsz with h | h | h | h | h <;> subst h <;> constructor <;> intro h <;> omega
+
+/-- NULL (the value `chunk` keeps when `aws_array_list_get_at` fails at `chunk_idx = length`) is never accepted -/
+theorem purgeHit_null (p : Nat) {sz : Nat} (hsz : sz ∈ binSizes) :
+    ¬ purgeHit 0 (purgeStart (p * pageSize) sz) (purgeEnd (p * pageSize) sz) := by
+  simp only [purgeHit, purgeStart, purgeEnd, hdrSize_eq, pageSize_eq]
+  rcases mem_binSizes.mp hsz with h | h | h | h | h <;> subst h <;> omega
 
 end AwsVerif.Proofs.C03
